@@ -1,1 +1,186 @@
-//! C10 — (harnesses not written yet)
+//! C10 — a writer holds one shape type; a rejected write changes nothing.
+use crate::env::*;
+use crate::model::*;
+use crate::refcodec::*;
+use shapefile::record::{ConcreteReadableShape, ReadableShape, WritableShape};
+use shapefile::*;
+use std::io::{Seek, Write};
+
+const INF: f64 = f64::INFINITY;
+
+/// One concrete instance of every type, with extreme coordinates (-inf..+inf in every
+/// dimension) so that any contribution of a rejected shape to the header box would show.
+pub struct Insts {
+    point: Point,
+    pointm: PointM,
+    pointz: PointZ,
+    polyline: Polyline,
+    polylinem: PolylineM,
+    polylinez: PolylineZ,
+    polygon: Polygon,
+    polygonm: PolygonM,
+    polygonz: PolygonZ,
+    multipoint: Multipoint,
+    multipointm: MultipointM,
+    multipointz: MultipointZ,
+    multipatch: Multipatch,
+}
+
+fn insts() -> Insts {
+    let p = |s: f64| Point::new(s * INF, s * INF);
+    let pm = |s: f64| PointM::new(s * INF, s * INF, s * INF);
+    let pz = |s: f64| PointZ::new(s * INF, s * INF, s * INF, s * INF);
+    Insts {
+        point: p(1.0),
+        pointm: pm(1.0),
+        pointz: pz(1.0),
+        polyline: Polyline::new(vec![p(-1.0), p(1.0)]),
+        polylinem: PolylineM::new(vec![pm(-1.0), pm(1.0)]),
+        polylinez: PolylineZ::new(vec![pz(-1.0), pz(1.0)]),
+        polygon: Polygon::new(PolygonRing::Outer(vec![p(-1.0), p(1.0), p(-1.0)])),
+        polygonm: PolygonM::new(PolygonRing::Outer(vec![pm(-1.0), pm(1.0), pm(-1.0)])),
+        polygonz: PolygonZ::new(PolygonRing::Outer(vec![pz(-1.0), pz(1.0), pz(-1.0)])),
+        multipoint: Multipoint::new(vec![p(-1.0), p(1.0)]),
+        multipointm: MultipointM::new(vec![pm(-1.0), pm(1.0)]),
+        multipointz: MultipointZ::new(vec![pz(-1.0), pz(1.0)]),
+        multipatch: Multipatch::new(Patch::TriangleStrip(vec![pz(-1.0), pz(1.0), pz(-1.0)])),
+    }
+}
+
+/// Offer one shape of another type: must be refused with the exact error, and no
+/// operation may reach either destination.
+fn offer<S: TShape, W: Write + Seek, const N: usize>(
+    w: &mut ShapeWriter<W>,
+    s: &S,
+    t1: i32,
+    shp: *const MemFile<N>,
+    shx: *const MemFile<N>,
+) {
+    if S::CODE == t1 {
+        return;
+    }
+    let before = unsafe { ((*shp).ops(), (*shp).len, (*shp).pos, (*shx).ops(), (*shx).len, (*shx).pos) };
+    let r = w.write_shape(s);
+    match &r {
+        Err(Error::MismatchShapeType { requested, actual }) => {
+            assert!(*requested as i32 == t1, "mismatch error does not name the file's type as requested");
+            assert!(*actual as i32 == S::CODE, "mismatch error does not name the offered type as actual");
+        }
+        Ok(()) => assert!(false, "a shape of another type was accepted"),
+        Err(_) => assert!(false, "a shape of another type was refused with another error"),
+    }
+    std::mem::forget(r);
+    let after = unsafe { ((*shp).ops(), (*shp).len, (*shp).pos, (*shx).ops(), (*shx).len, (*shx).pos) };
+    assert!(before == after, "a rejected write issued I/O to a destination");
+}
+
+fn offer_all<W: Write + Seek, const N: usize>(
+    w: &mut ShapeWriter<W>,
+    i: &Insts,
+    t1: i32,
+    shp: *const MemFile<N>,
+    shx: *const MemFile<N>,
+) {
+    offer(w, &i.point, t1, shp, shx);
+    offer(w, &i.pointm, t1, shp, shx);
+    offer(w, &i.pointz, t1, shp, shx);
+    offer(w, &i.polyline, t1, shp, shx);
+    offer(w, &i.polylinem, t1, shp, shx);
+    offer(w, &i.polylinez, t1, shp, shx);
+    offer(w, &i.polygon, t1, shp, shx);
+    offer(w, &i.polygonm, t1, shp, shx);
+    offer(w, &i.polygonz, t1, shp, shx);
+    offer(w, &i.multipoint, t1, shp, shx);
+    offer(w, &i.multipointm, t1, shp, shx);
+    offer(w, &i.multipointz, t1, shp, shx);
+    offer(w, &i.multipatch, t1, shp, shx);
+}
+
+/// History [write, offers, write, offers, finalize, offers, write, drop] against the same
+/// history without offers.
+pub fn one_type<S: TShape, const N: usize>(sp: &Spec) {
+    let i = insts();
+    let m1 = sym_spec(S::CODE, sp);
+    let m2 = sym_spec(S::CODE, sp);
+    let a = S::build(&m1);
+    let b = S::build(&m2);
+    let mut shp = MemFile::<N>::new();
+    let mut shx = MemFile::<N>::new();
+    {
+        let (p, x) = (&shp as *const MemFile<N>, &shx as *const MemFile<N>);
+        let mut w = ShapeWriter::with_shx(Shared::new(&mut shp), Shared::new(&mut shx));
+        let r = w.write_shape(&a);
+        assert!(r.is_ok());
+        std::mem::forget(r);
+        offer_all(&mut w, &i, S::CODE, p, x);
+        let r = w.write_shape(&b);
+        assert!(r.is_ok());
+        std::mem::forget(r);
+        offer_all(&mut w, &i, S::CODE, p, x);
+        let r = w.finalize();
+        assert!(r.is_ok());
+        std::mem::forget(r);
+        offer_all(&mut w, &i, S::CODE, p, x);
+        // a rejected write must not make the writer dirty: this finalize has nothing to commit
+        let before = unsafe { ((*p).ops(), (*x).ops()) };
+        let r = w.finalize();
+        std::mem::forget(r);
+        let after = unsafe { ((*p).ops(), (*x).ops()) };
+        assert!(before == after, "a rejected write left something to commit");
+        let r = w.write_shape(&a);
+        assert!(r.is_ok());
+        std::mem::forget(r);
+    }
+    let mut rshp = MemFile::<N>::new();
+    let mut rshx = MemFile::<N>::new();
+    {
+        let mut w = ShapeWriter::with_shx(&mut rshp, &mut rshx);
+        let r = w.write_shape(&a);
+        std::mem::forget(r);
+        let r = w.write_shape(&b);
+        std::mem::forget(r);
+        let r = w.finalize();
+        std::mem::forget(r);
+        let r = w.write_shape(&a);
+        std::mem::forget(r);
+    }
+    assert!(same_image(&shp, &rshp), ".shp differs from the history without the rejected calls");
+    assert!(same_image(&shx, &rshx), ".shx differs from the history without the rejected calls");
+    kani::cover!(shp.len > 100, "three records written around 36 rejected offers");
+}
+
+macro_rules! ot {
+    ($name:ident, $T:ty, $N:expr, $sp:expr) => {
+        #[kani::proof]
+        #[kani::unwind(34)]
+        fn $name() {
+            one_type::<$T, $N>(&$sp);
+        }
+    };
+}
+// H: tier=quick; unwind=34; sym=coords of the written Points; offered=the 12 other types at 3 positions of [write, *, write, *, finalize, *, write, drop]; asserts=Err(MismatchShapeType{requested: file type, actual: offered}), no I/O and no position change on .shp/.shx, writer not made dirty, final images identical to the history without offers
+ot!(c10_q_first_point, Point, 224, spec(&[]));
+// H: tier=quick; unwind=34; sym=coords of the written PointZ; offered=12 other types x 3 positions; asserts=as first_point
+ot!(c10_q_first_pointz, PointZ, 256, spec(&[]));
+// H: tier=quick; unwind=34; sym=coords of the written Polyline [2]; offered=12 other types x 3 positions; asserts=as first_point
+ot!(c10_q_first_polyline, Polyline, 416, spec(&[2]));
+// H: tier=quick; unwind=34; sym=coords of the written MultipointM (2 points); offered=12 other types x 3 positions; asserts=as first_point
+ot!(c10_q_first_multipointm, MultipointM, 480, spec(&[2]));
+// H: tier=thorough; unwind=34; sym=coords of the written Multipatch (strip 3); offered=12 other types x 3 positions; asserts=as first_point
+ot!(c10_q_first_multipatch, Multipatch, 704, spec_k(&[3], &[0], &[], &[]));
+// H: tier=thorough; unwind=34; sym=coords of the written PointM; offered=12 other types x 3 positions; asserts=as first_point
+ot!(c10_t_first_pointm, PointM, 256, spec(&[]));
+// H: tier=thorough; unwind=34; sym=coords of the written PolylineM [2]; offered=12 other types x 3 positions; asserts=as first_point
+ot!(c10_t_first_polylinem, PolylineM, 512, spec(&[2]));
+// H: tier=thorough; unwind=34; sym=coords of the written PolylineZ [2]; offered=12 other types x 3 positions; asserts=as first_point
+ot!(c10_t_first_polylinez, PolylineZ, 608, spec(&[2]));
+// H: tier=thorough; unwind=34; sym=coords of the written Polygon (closed ring 4); offered=12 other types x 3 positions; asserts=as first_point
+ot!(c10_t_first_polygon, Polygon, 512, spec_k(&[4], &[0], &[], &[0]));
+// H: tier=thorough; unwind=34; sym=coords of the written PolygonM (closed ring 4); offered=12 other types x 3 positions; asserts=as first_point
+ot!(c10_t_first_polygonm, PolygonM, 640, spec_k(&[4], &[0], &[], &[0]));
+// H: tier=thorough; unwind=34; sym=coords of the written PolygonZ (closed ring 4); offered=12 other types x 3 positions; asserts=as first_point
+ot!(c10_t_first_polygonz, PolygonZ, 768, spec_k(&[4], &[0], &[], &[0]));
+// H: tier=thorough; unwind=34; sym=coords of the written Multipoint (2 points); offered=12 other types x 3 positions; asserts=as first_point
+ot!(c10_t_first_multipoint, Multipoint, 416, spec(&[2]));
+// H: tier=thorough; unwind=34; sym=coords of the written MultipointZ (2 points); offered=12 other types x 3 positions; asserts=as first_point
+ot!(c10_t_first_multipointz, MultipointZ, 576, spec(&[2]));
